@@ -103,7 +103,12 @@ def any_(x, *a, **k):
         flat = list(x.reshape(-1))
         if any(isinstance(e, SymBool) for e in flat):
             ts = [e.t if isinstance(e, SymBool) else z3.BoolVal(bool(e)) for e in flat]
-            return SymBool(z3.Or(*ts))
+            t = z3.Or(*ts)
+            if ctx().config.get("any_gate") == "assume-false":
+                # sign/validity gates of the form `if np.any(x < 0): raise` treated as assumptions (recorded)
+                ctx().assume(z3.Not(t), why="np.any(...) gate assumed not to fire")
+                return False
+            return SymBool(t)
         return any(bool(e) for e in flat)
     return _np.any(x, *a, **k)
 
